@@ -50,6 +50,7 @@ package api
 //@ |   jstr(respbody(ctx), "code") == hotp(algoof(jstr(b, "algorithm")), b32key(sec), nowunix / (jnum(b, "period") == 0 ? 30 : jnum(b, "period")), digitsof(jstr(b, "digits")))
 //@   ensures[clock] ok && jnum(b, "timestamp") > 0 ==> nowcalls == 0
 //@   ensures[fails] ok && !b32ok(sec) ==> respstatus(ctx) == 500
+//@   ensures[ctype] respstatus(ctx) == 200 ==> respctype(ctx) == "application/json"
 //@   ensures[once] respnbody(ctx) == 1
 
 //@ func api.hotpGeneration$1(ctx)
@@ -64,6 +65,7 @@ package api
 //@   ensures[maps] ok && b32ok(jstr(b, "secret")) ==> respstatus(ctx) == 200 && jnum(respbody(ctx), "counter") == jnum(b, "counter") &&
 //@ |   jstr(respbody(ctx), "code") == hotp(algoof(jstr(b, "algorithm")), b32key(jstr(b, "secret")), jnum(b, "counter"), digitsof(jstr(b, "digits")))
 //@   ensures[fails] ok && !b32ok(jstr(b, "secret")) ==> respstatus(ctx) == 500
+//@   ensures[ctype] respstatus(ctx) == 200 ==> respctype(ctx) == "application/json"
 //@   ensures[once] respnbody(ctx) == 1
 
 //@ func api.hotpValidation$1(ctx)
@@ -82,6 +84,7 @@ package api
 //@   ensures[missing] ispost(ctx) && jok(b, otpValidateReq) && !(trim(jstr(b, "secret")) != "" && trim(jstr(b, "code")) != "") ==> respstatus(ctx) == 400
 //@   ensures[maps] ok ==> respstatus(ctx) == 200 && (jbool(respbody(ctx), "valid") <==> (s <= 10 && b32ok(jstr(b, "secret")) && len(jstr(b, "code")) == d &&
 //@ |   exists j in -10..10 :: -s <= j && j <= s && c + j >= 0 && jstr(b, "code") == hotp(a, b32key(jstr(b, "secret")), c + j, d)))
+//@   ensures[ctype] respstatus(ctx) == 200 ==> respctype(ctx) == "application/json"
 //@   ensures[once] respnbody(ctx) == 1
 
 //@ func api.totpValidation$1(ctx)
@@ -106,6 +109,7 @@ package api
 //@   ensures[now] ok && jnum(b, "timestamp") <= 0 && nowunix / p >= min(s, 10) ==> (jbool(respbody(ctx), "valid") <==> (s <= 10 && b32ok(sec) && len(jstr(b, "code")) == d &&
 //@ |   exists j in -10..10 :: -s <= j && j <= s && jstr(b, "code") == hotp(a, b32key(sec), nowunix / p + j, d)))
 //@   ensures[clock] ok && jnum(b, "timestamp") > 0 ==> nowcalls == 0
+//@   ensures[ctype] respstatus(ctx) == 200 ==> respctype(ctx) == "application/json"
 //@   ensures[once] respnbody(ctx) == 1
 
 // ---- secrets, suites --------------------------------------------------------
@@ -119,6 +123,7 @@ package api
 //@   ensures[maps] isget(ctx) && respstatus(ctx) == 200 ==> jstr(respbody(ctx), "secret") == b32nopad(sub(rng, rngpos0, rngpos0 + hlen(a))) &&
 //@ |   jstr(respbody(ctx), "algorithm") == algname(a) && rngpos == rngpos0 + hlen(a)
 //@   ensures[status] isget(ctx) ==> respstatus(ctx) == 200
+//@   ensures[ctype] respstatus(ctx) == 200 ==> respctype(ctx) == "application/json"
 //@   ensures[once] respnbody(ctx) == 1
 
 //@ func api.listOCRASuites$1(ctx)
@@ -130,6 +135,7 @@ package api
 //@   ensures[count] isget(ctx) ==> jarrlen(respbody(ctx), "suites") == 45
 //@   ensures[sound] isget(ctx) ==> forall k :: 0 <= k && k < 45 ==> maphas(knownSuites, jarrstr(respbody(ctx), "suites", k))
 //@   ensures[complete] isget(ctx) ==> forall s: seq :: maphas(knownSuites, s) ==> exists k :: 0 <= k && k < 45 && jarrstr(respbody(ctx), "suites", k) == s
+//@   ensures[ctype] respstatus(ctx) == 200 ==> respctype(ctx) == "application/json"
 //@   ensures[once] respnbody(ctx) == 1
 
 //@ func api.ocraSuiteConfig$1(ctx)
@@ -152,6 +158,7 @@ package api
 //@ |   (jbool(respbody(ctx), "config.include_timestamp") <==> mapget(knownSuites, raw).IncludeTimestamp) &&
 //@ |   jnum(respbody(ctx), "config.password_hash") == mapget(knownSuites, raw).PasswordHash &&
 //@ |   jnum(respbody(ctx), "config.timestep") == mapget(knownSuites, raw).TimeStep
+//@   ensures[ctype] respstatus(ctx) == 200 ==> respctype(ctx) == "application/json"
 //@   ensures[once] respnbody(ctx) == 1
 
 //@ func api.home$1(ctx)
@@ -160,6 +167,7 @@ package api
 //@   modifies ctx
 //@   ensures[method] !isget(ctx) ==> respstatus(ctx) == 405
 //@   ensures[ok] isget(ctx) ==> respstatus(ctx) == 200
+//@   ensures[ctype] respstatus(ctx) == 200 ==> respctype(ctx) == "application/json"
 //@   ensures[once] respnbody(ctx) == 1
 
 // ---- provisioning URL ---------------------------------------------------------
@@ -182,6 +190,7 @@ package api
 //@ |   qget(uquery(jstr(respbody(ctx), "url")), "algorithm") == algname(algoof(jstr(b, "algorithm"))) &&
 //@ |   (ty == "totp" ==> qget(uquery(jstr(respbody(ctx), "url")), "period") == dec(jnum(b, "period") == 0 ? 30 : jnum(b, "period"))) &&
 //@ |   (ty == "hotp" ==> qget(uquery(jstr(respbody(ctx), "url")), "counter") == "0")
+//@   ensures[ctype] respstatus(ctx) == 200 ==> respctype(ctx) == "application/json"
 //@   ensures[once] respnbody(ctx) == 1
 
 // ---- OCRA ------------------------------------------------------------------------
@@ -232,6 +241,7 @@ package api
 //@ |   jstr(respbody(ctx), "code") == otpcode(sH, b32key(sec), strmsg, sD)
 //@   ensures[fails] okreq && (raw == "" || maphas(knownSuites, raw)) && (jhas(b, "suite") ==> sus) && !(b32ok(sec) && (raw != "" ? rawadm : stradm)) ==> respstatus(ctx) == 500
 //@   ensures[status] respstatus(ctx) == 200 || respstatus(ctx) == 400 || respstatus(ctx) == 405 || respstatus(ctx) == 500
+//@   ensures[ctype] respstatus(ctx) == 200 ==> respctype(ctx) == "application/json"
 //@   ensures[once] respnbody(ctx) == 1
 
 //@ func api.ocraValidation$1(ctx)
@@ -271,6 +281,7 @@ package api
 //@   ensures[mapsstruct] okreq && raw == "" && sus ==> respstatus(ctx) == 200 && (jbool(respbody(ctx), "valid") <==>
 //@ |   (b32ok(sec) && stradm && len(jstr(b, "code")) == sD && jstr(b, "code") == otpcode(sH, b32key(sec), strmsg, sD)))
 //@   ensures[status] respstatus(ctx) == 200 || respstatus(ctx) == 400 || respstatus(ctx) == 405 || respstatus(ctx) == 500
+//@   ensures[ctype] respstatus(ctx) == 200 ==> respctype(ctx) == "application/json"
 //@   ensures[once] respnbody(ctx) == 1
 
 // ---- router ------------------------------------------------------------------------
